@@ -416,6 +416,20 @@ class World:
                 self.total[i] *= 2
             self.flags.add("merge")
             return touched
+        if op == "copy":
+            # copy.deepcopy / a pickle round trip (what a multiprocessing.Pool returns): the sketch object is replaced by its
+            # copy and the history goes on with the copy.  In-memory sketches only (observed to work on the unchanged tree).
+            if getattr(self, "shm", False) or getattr(sk, "shm", None) is not None or getattr(sk, "existing_shm", None) is not None:
+                return set()
+            import copy as _copy
+            import pickle as _pickle
+
+            new = sut(_copy.deepcopy, sk) if step.get("how") == "deepcopy" else sut(lambda x: _pickle.loads(_pickle.dumps(x)), sk)
+            if type(new) is not type(sk):
+                raise Violation(f"a copy of a {type(sk).__name__} is a {type(new).__name__}", "copy-class")
+            self.sk[i] = new
+            self.flags.add("continued_on_a_deepcopy_or_unpickled_copy")
+            return {i}
         if op == "save_load":
             self.nfile += 1
             slot = step.get("slot")
